@@ -20,27 +20,27 @@ const modPath = "github.com/arm-doe/sts"
 
 // Engine holds the loaded, type-checked program and its SSA form.
 type Engine struct {
-	RepoDir  string
-	Fset     *token.FileSet
-	Pkgs     map[string]*packages.Package // by import path (module packages only)
-	Prog     *ssa.Program
-	SSAPkgs  map[string]*ssa.Package
-	Funcs    []*ssa.Function          // every function of the module (methods, closures, instances), minus package mock
-	byName   map[string]*ssa.Function // short name -> function
-	parents  map[*ssa.Function]*ssa.MakeClosure
-	vtaGraph *callgraph.Graph
-	chaGraph *callgraph.Graph
-	Excluded []string
-	reach    map[*ssa.Alloc]map[ssa.Instruction][]ssa.Value // reaching stores cache
+	RepoDir   string
+	Fset      *token.FileSet
+	Pkgs      map[string]*packages.Package // by import path (module packages only)
+	Prog      *ssa.Program
+	SSAPkgs   map[string]*ssa.Package
+	Funcs     []*ssa.Function          // every function of the module (methods, closures, instances), minus package mock
+	byName    map[string]*ssa.Function // short name -> function
+	parents   map[*ssa.Function]*ssa.MakeClosure
+	vtaGraph  *callgraph.Graph
+	chaGraph  *callgraph.Graph
+	Excluded  []string
+	canonMemo map[ssa.Value]string
 }
 
 // Load type-checks every package of the module in repoDir and builds SSA.
 func Load(repoDir string, overlay map[string][]byte) (*Engine, error) {
 	cfg := &packages.Config{
-		Mode:  packages.LoadAllSyntax,
-		Dir:   repoDir,
-		Tests: false,
-		Env:   goEnv(),
+		Mode:    packages.LoadAllSyntax,
+		Dir:     repoDir,
+		Tests:   false,
+		Env:     goEnv(),
 		Overlay: overlay,
 	}
 	pkgs, err := packages.Load(cfg, "./...")
@@ -51,12 +51,12 @@ func Load(repoDir string, overlay map[string][]byte) (*Engine, error) {
 		return nil, fmt.Errorf("load: no packages found in %s", repoDir)
 	}
 	e := &Engine{
-		RepoDir: repoDir,
-		Pkgs:    map[string]*packages.Package{},
-		SSAPkgs: map[string]*ssa.Package{},
-		byName:  map[string]*ssa.Function{},
-		parents: map[*ssa.Function]*ssa.MakeClosure{},
-		reach:   map[*ssa.Alloc]map[ssa.Instruction][]ssa.Value{},
+		RepoDir:   repoDir,
+		Pkgs:      map[string]*packages.Package{},
+		SSAPkgs:   map[string]*ssa.Package{},
+		byName:    map[string]*ssa.Function{},
+		parents:   map[*ssa.Function]*ssa.MakeClosure{},
+		canonMemo: map[ssa.Value]string{},
 	}
 	var errs []string
 	packages.Visit(pkgs, nil, func(p *packages.Package) {
